@@ -31,3 +31,19 @@ def tiled(w, L, ldL, R2size):
     val = ldL[:, None] + 0.0 * xp.zeros((1, R2size))
     w.ld_rule(M, val, "function property of det (tiling)")
     return M, val
+
+
+def sylvester(w, S, ldS, Sx, ldSx, M, LxMLM):
+    """GtvLemmas.det_add_mul_mul_transpose (Sylvester / matrix determinant lemma, generalised):
+    S, Sx invertible with inverses L, Lx:
+        ln det(S + M Sx M') = ldS + ldSx + ln det(Lx + M' L M)
+    batches explicit: S [A,Dy,Dy], ldS [A]; Sx [B,Dx,Dx], ldSx [B]; M [A,Dy,Dx] or None (identity);
+    LxMLM [A,B,Dx,Dx] = Lx + M' L M (built by the caller from the same quantities)"""
+    xp = w.xp
+    if M is None:
+        Sy = S[:, None] + Sx[None]
+    else:
+        Sy = S[:, None] + xp.einsum("aij,bjk,alk->abil", M, Sx, M)
+    val = ldS[:, None] + ldSx[None] + w.logdet(LxMLM)
+    w.ld_rule(Sy, val, "GtvLemmas.det_add_mul_mul_transpose")
+    return Sy, val
